@@ -58,6 +58,17 @@ void profile_cfg_more(const std::string &prof, uint64_t seed, RunCfg &c, Rng &r)
     c.allow_cancel_in_cb = 0;
     c.beh_w = {45, 4, 2, 0, 3, 0, 5, 35, 4, 1, 1, 0, 1, 0, 0};
     c.qcache_max_ttl = 0;
+  } else if (prof == "C05") {
+    c.allow_cancel_in_cb = 0;
+    c.beh_w = {70, 3, 1, 0, 2, 1, 6, 8, 6, 2, 1, 0, 1, 1, 0};
+    c.zone_w = {70, 10, 15, 5};
+    for (auto &sv : c.servers) sv.cookie_mode = r.chance(0.5) ? CK_GOOD : CK_NONE;
+    c.qcache_max_ttl = r.chance(0.5) ? 0 : 300;
+    if (r.chance(0.5)) c.udp_max_queries = 1 + (int)r.below(3);
+    c.prof.ttl_choices = {5, 30, 300};
+    c.sock_create_cb = 0; c.sock_config_cb = 0;
+    c.timeout_ms = 200 + (int)r.below(1500); c.tries = 2 + (int)r.below(3); c.maxtimeout_ms = -1;
+    c.knobs["kind_mask"] = (1 << K_SEND_DNSREC) | (1 << K_QUERY_DNSREC) | (1 << K_QUERY) | (1 << K_SEND) | (1 << K_GETADDRINFO) | (1 << K_GETHOSTBYNAME) | (1 << K_SEARCH_DNSREC) | (1 << K_SEARCH);
   } else if (prof == "C08") {
     c.allow_cancel_in_cb = 0;
     c.use_tokens = 0;
@@ -142,6 +153,13 @@ bool profile_plan_more(const RunCfg &c, Rng &r, std::vector<Step> &plan) {
   if (p == "C03") { gen(c, r, plan, weights({{S_REQ, 40}, {S_ADV, 45}, {S_CHUNK, 10}, {S_STALL, 1}, {S_FAULT, 2}}), 20, 120); for (auto &s : plan) if (s.k == S_FAULT) { s.a = FC_SEND; s.b = 0; s.c = 2 + 4 * (r.chance(0.5) ? 1 : 0) + 16 * (int64_t)r.below(20); } return true; }
   if (p == "C06") { gen(c, r, plan, weights({{S_REQ, 22}, {S_ADV, 50}, {S_STALL, 4}, {S_NETOP, 6}, {S_FAULT, 10}, {S_PARTITION, 3}, {S_SETSRV, 3}, {S_REINIT, 1}, {S_CHUNK, 2}}), 20, 120); return true; }
   if (p == "C07") { gen(c, r, plan, weights({{S_REQ, 25}, {S_ADV, 60}, {S_STALL, 8}, {S_NETOP, 4}, {S_PARTITION, 3}, {S_CANCEL, 1}}), 20, 140); return true; }
+  if (p == "C05") {
+    std::vector<int> w = weights({{S_REQ, 28}, {S_ADV, 38}, {S_FORGE, 22}, {S_STALL, 3}, {S_NETOP, 5}, {S_FAULT, 2}, {S_PARTITION, 2}});
+    w[S_FORGE] = 22;   // the adversary also acts in runs without transport faults
+    gen(c, r, plan, w, 25, 150);
+    for (auto &s : plan) { if (s.k == S_STALL) s.a = (int64_t)r.below(2500); if (s.k == S_REQ && (s.d % R_NREACT) == R_CANCEL) s.d++; }
+    return true;
+  }
   if (p == "C08") {
     gen(c, r, plan, weights({{S_REQ, 38}, {S_ADV, 34}, {S_STALL, 20}, {S_SETSRV, 4}, {S_REINIT, 2}, {S_NETOP, 2}}), 30, 160);
     static const int64_t waits[] = {1, 300, 998, 999, 1000, 1001, 1002, 1500, 1999, 2000, 2001, 2999, 3000, 3001, 4999, 5000, 5001, 29999, 30000, 30001, 299999, 300000, 300001, 3600001};
@@ -379,6 +397,107 @@ static void c06_after(Run &run) {
 }
 
 // ---------------------------------------------------------------------------------------------
+// C05: only an authentic, matching response can answer a query or enter the cache
+// ---------------------------------------------------------------------------------------------
+static const char *defect_names(int d) {
+  static std::string s;
+  s.clear();
+  static const char *n[] = {"wrong-id", "wrong-socket", "wrong-source-address", "wrong-qname", "wrong-qtype", "wrong-qclass", "wrong-question-count", "wrong-letter-case", "bad-cookie", "stale", "garbage", "missing-cookie"};
+  for (int i = 0; i < 12; i++) if (d & (1 << i)) { if (!s.empty()) s += "+"; s += n[i]; }
+  return s.c_str();
+}
+// judge a response at the instant the library reads it from a socket (datagrams queued in the kernel are indistinguishable
+// from ones arriving now, so "the connection the query is currently assigned to" means: at this instant)
+static void c05_arrival(Run &run, Resp &rs, VFd &sock) {
+  if (rs.tx < 0) return;
+  if (rs.forged && rs.forge_variant != 1 && rs.forge_variant != 11 && rs.forge_variant != 8 && rs.forge_variant != 9) return;   // other variants are defective whatever the socket
+  const Tx &T = W.txs[(size_t)rs.tx];
+  if (T.msg.qd.empty()) return;
+  // latest transmission of the same wire query (same question, same id)
+  const Tx *last = nullptr;
+  for (size_t i = W.txs.size(); i-- > 0;) {
+    const Tx &x = W.txs[i];
+    if (x.decode_err.empty() && !x.msg.qd.empty() && x.msg.id == T.msg.id && x.qname_lc == T.qname_lc && x.msg.qd[0].type == T.msg.qd[0].type) { last = &x; break; }
+  }
+  rs.acceptable = 1;
+  rs.defect &= ~DEF_STALE;
+  if (rs.forged && (rs.forge_variant == 8 || rs.forge_variant == 9)) {
+    // cookie defects only count against a query whose latest transmission carries a client cookie (after the server was
+    // classified as not supporting cookies the query is re-sent without one and response cookies are no longer examined)
+    bool has = false;
+    if (last) if (const dnsref::RR *o = last->msg.opt()) for (auto &op : o->opts) if (op.code == 10 && op.data.size() >= 8) has = true;
+    if (!has) { rs.defect &= ~(DEF_BAD_COOKIE | DEF_NO_COOKIE); run.note("cookie_forgery_against_cookieless_query"); }
+    return;
+  }
+  if (rs.forged) {
+    // a copy delivered to another socket is only a defect if that socket is not the one the query currently uses
+    rs.defect &= ~DEF_WRONG_SOCKET;
+    if (last && last->fd != sock.fd) { rs.defect |= DEF_WRONG_SOCKET; rs.acceptable = 0; rs.unacceptable_why = "delivered to socket " + std::to_string(sock.fd) + ", the query's latest transmission used socket " + std::to_string(last->fd); }
+    return;
+  }
+  if (last && last->fd != sock.fd) { rs.acceptable = 0; rs.defect |= DEF_STALE; rs.unacceptable_why = "arrived on socket " + std::to_string(sock.fd) + " but the query's latest transmission used socket " + std::to_string(last->fd); run.note("stale_reply_on_old_socket"); }
+  (void)run;
+}
+static void c05_done(Run &run, Req &r) {
+  for (uint32_t m : r.markers) {
+    auto it = W.marker_resp.find(m);
+    if (it == W.marker_resp.end()) continue;
+    const Resp &rs = W.resps[(size_t)it->second];
+    if (rs.tainted) continue;
+    // the server has proven cookie support once a response carrying a server cookie was actually accepted and delivered
+    if (rs.has_server_cookie && !rs.forged && !rs.defect) W.stat["cookie_proven." + std::to_string(rs.server)] = 1;
+    if (rs.forged) run.note(rs.defect ? "forged_marker_seen" : "valid_copy_accepted");
+    if (rs.defect & ~DEF_GARBAGE) {
+      run.violate("C05", rs.forged ? "forged_packet_accepted" : "stale_reply_accepted",
+                  std::string(rs.forged ? "forged" : "genuine but stale") + " packet (" + defect_names(rs.defect) + (rs.unacceptable_why.empty() ? "" : ": " + rs.unacceptable_why) + "; packet #" + std::to_string(rs.id) + " answering transmission #" + std::to_string(rs.tx) + " (socket " + std::to_string(rs.tx >= 0 ? W.txs[(size_t)rs.tx].fd : -1) + "), delivered to socket " + std::to_string(rs.fd) + ") supplied data to request " + std::to_string(r.token) + " (" + req_kind_name[r.kind] + " " + r.name + ", status " + ares_status_name(r.status) + (r.in_call && r.tx_at_done == r.tx_at_submit ? ", served from the cache" : "") + ")");
+      return;
+    }
+  }
+}
+static void c05_end(Run &run) {
+  // a server success may only be reported when an acceptable response from that server was read in that library call
+  for (auto &e : run.srv_events) {
+    if (!e.ok) continue;
+    bool ok = false, any = false;
+    for (auto &rs : W.resps) for (size_t i = 0; i < rs.read_api.size(); i++) if (rs.read_api[i] == e.api_seq) { any = true; if (!(rs.defect & ~DEF_GARBAGE) || rs.tainted) ok = true; }
+    if (any && !ok) {
+      std::string lst;
+      for (auto &rs : W.resps) for (size_t i = 0; i < rs.read_api.size(); i++) if (rs.read_api[i] == e.api_seq) lst += " #" + std::to_string(rs.id) + "(" + (rs.forged ? "forged," : "") + defect_names(rs.defect) + ")";
+      run.violate("C05", "success_counted_for_unacceptable_packet", "server " + e.server + " was reported successful in a library call that only read unacceptable packets:" + lst);
+      return;
+    }
+  }
+}
+static void c05_forge_step(Run &run, const Step &s) {
+  // choose a victim transmission: mostly a recent one whose request is still outstanding
+  std::vector<int> cand;
+  for (size_t i = W.txs.size(); i-- > 0 && cand.size() < 12;) {
+    const Tx &t = W.txs[i];
+    if (t.tcp || !t.decode_err.empty() || t.msg.qd.empty()) continue;
+    bool outstanding = t.token >= 0 && t.token < (int)run.reqs.size() && run.reqs[(size_t)t.token].cb_count == 0;
+    if (outstanding || (s.d % 5) == 0) cand.push_back((int)i);
+  }
+  if (cand.empty()) return;
+  const Tx &T = W.txs[(size_t)cand[(size_t)s.a % cand.size()]];
+  int variant = (int)(s.b % 12);
+  int fd = T.fd;
+  VFd *v = W.get(fd);
+  if (variant == 1) {
+    // a different open UDP socket of the channel, preferably one talking to the same server
+    int alt = -1;
+    for (int f2 : W.open_sockets()) { VFd *o = W.get(f2); if (o->kind == FD_UDP && f2 != fd && o->server_idx == T.server) alt = f2; }
+    if (alt < 0) for (int f2 : W.open_sockets()) { VFd *o = W.get(f2); if (o->kind == FD_UDP && f2 != fd && o->server_idx >= 0) alt = f2; }
+    if (alt < 0) return;
+    fd = alt;
+  } else if (!v || !v->open) {
+    return;
+  }
+  int64_t at = W.now_us + 1 + (s.c % 3 == 0 ? (s.c / 3) % 400000 : 0);
+  int rid = W.forge_response(T, variant, fd, at, (uint64_t)s.c * 2654435761ULL + (uint64_t)s.d);
+  if (rid >= 0) { run.note("forged_packet"); if (W.resps[(size_t)rid].defect == 0) run.note("forged_but_valid_copy"); }
+}
+
+// ---------------------------------------------------------------------------------------------
 // C08: the cache only replays fresh, matching, successful answers
 // ---------------------------------------------------------------------------------------------
 static std::string cache_name_key(const std::string &n) {
@@ -584,9 +703,18 @@ void profile_attach_more(Run &run) {
   run.tx_obs.push_back(c03_tx);
   run.tx_obs.push_back(c06_tx);
   auto prev_done = run.on_done;
-  run.on_done = [prev_done](Run &r, Req &q) { if (prev_done) prev_done(r, q); c03_done(r, q); c08_done(r, q); };
+  run.on_done = [prev_done](Run &r, Req &q) { if (prev_done) prev_done(r, q); c03_done(r, q); c08_done(r, q); c05_done(r, q); };
+  run.world_ready.push_back([](Run &r) {
+    Run *rp = &r;
+    W.on_read = [rp](Resp &rs, VFd &sock) { c05_arrival(*rp, rs, sock); };
+    W.stat["cfg.dns0x20"] = (r.cfg.flags >= 0 && (r.cfg.flags & ARES_FLAG_DNS0x20)) ? 1 : 0;
+  });
   auto prev_after = run.after_step;
   run.after_step = [prev_after, p](Run &r) { if (prev_after) prev_after(r); c06_after(r); if (r.cfg.mode == 0) c10_after(r); };
+  if (p == "C05") {
+    run.extra_step = [](Run &r, const Step &s) { if (s.k == S_FORGE) c05_forge_step(r, s); };
+    run.at_end = c05_end;
+  }
   if (p == "C20") {
     run.at_end = c20_end;
     bool ref = run.cfg.knob("reference") != 0;
@@ -618,6 +746,7 @@ bool profile_nontrivial(const Run &run) {
   if (p == "C07") return base && get("hint_checked_with_deadline") > 0 && get("adv_with_expired") > 0;
   if (p == "C10") return base && W.stat.count("sock_udp_opened");
   if (p == "C08") return base && get("cache_hit") > 0;
+  if (p == "C05") return base && get("forged_packet") > 0;
   if (p == "C20") return base && get("differential_compared") > 0 && (W.stat.count("send_short") || W.stat.count("recv_short") || W.stat.count("send_eagain_window") || W.stat.count("recv_eagain_injected") || get("zero_length_datagram") > 0 || !W.fault_fired.empty());
   if (p == "C01") return base && (get("req_from_callback") + get("cancel_in_callback") + get("cancel_with_outstanding") > 0 || !W.fault_fired.empty());
   return base;
@@ -627,6 +756,7 @@ const char *profile_rule(const std::string &prof) {
   if (prof == "C03") return "runs are seeded plans (requests by name / setter-built multi-record messages / legacy builder, transport chunking so frames queue behind unsent bytes); non-trivial = at least one setter-built frame or one delivered answer was compared with the reference codec; distinct = distinct trace-shape hash";
   if (prof == "C06") return "runs are seeded plans over per-attempt server outcomes, option extremes (tries up to 100, timeouts 1 ms..INT_MAX, maxtimeout below the floor), list edits; non-trivial = at least one attempt's wait was checked against the envelope and traffic was processed; distinct = distinct trace-shape hash";
   if (prof == "C07") return "runs are seeded plans with silent/slow servers and sleep-exactly/overshoot/stall steps; non-trivial = the hint was compared with a real deadline and at least one loop turn ran with an expired deadline; distinct = distinct trace-shape hash";
+  if (prof == "C05") return "runs are seeded histories of genuine traffic (loss, delay, duplicates, late replies, error rcodes, TC) with an off-path adversary injecting datagrams that differ from the would-be-valid reply in one respect (id, socket, source address, name, type, class, question count, letter case, cookie) at chosen instants of a query's life; every delivered datum carries a unique marker naming its packet; non-trivial = at least one forged packet was injected while traffic was processed; distinct = distinct trace-shape hash";
   if (prof == "C08") return "runs are seeded sequences of requests over a small name set (case / trailing-dot / flag / type variants, every API), responses with TTL mixes and negative answers, virtual-time advances around whole-second expiry instants, server-list changes and reinit; non-trivial = at least one request was answered without any transmission (a cache hit judged by the reference model); distinct = distinct trace-shape hash";
   if (prof == "C20") return "each seeded plan (batches of queued queries, answers up to several KiB, TC upgrades) is executed twice: once with whole-message always-writable transport and once with generated inbound chunking, partial writes, EAGAIN windows and zero-length datagrams; non-trivial = the two executions were compared and at least one short read/short write/EAGAIN/zero-length datagram actually occurred; distinct = distinct trace-shape hash of the segmented execution";
   if (prof == "C10") return "runs are seeded plans over UDP/TCP/TFO mixes, per-socket limits, failing socket callbacks and per-call socket faults; non-trivial = sockets were opened and readiness events processed; distinct = distinct trace-shape hash";
